@@ -418,8 +418,8 @@ Lemma opt_def rec g1 g2 tx ty e1 e2 st st' :
   t_def ty = TDVariant [mk_variant "None" [] 0 []; mk_variant "Some" [plain_field e2] 1 []] ->
   rec e1 e2 st = Ok (true, st') -> teq_def rec g1 g2 tx ty st = Ok (true, st').
 Proof.
-  intros H1 H2 Hr. unfold teq_def. rewrite H1, H2. cbn [List.length Nat.eqb negb all2 v_name v_fields].
-  rewrite !String.eqb_refl. unfold fields_equal_with at 1. cbn [List.length Nat.eqb negb all2 bind fst snd].
+  intros H1 H2 Hr. unfold teq_def. rewrite H1, H2. cbn [List.length Nat.eqb negb all2 v_name v_fields v_index].
+  rewrite !String.eqb_refl, !N.eqb_refl. cbn [andb]. unfold fields_equal_with at 1. cbn [List.length Nat.eqb negb all2 bind fst snd].
   unfold fields_equal_with, compare_fields_with.
   cbn [List.length Nat.eqb negb all2 plain_field f_name f_type_name f_ty opt_str_eqb]. rewrite Hr. reflexivity.
 Qed.
@@ -429,8 +429,8 @@ Lemma res_def rec g1 g2 tx ty x1 y1 x2 y2 st st1 st2 :
   t_def ty = TDVariant [mk_variant "Ok" [plain_field x2] 0 []; mk_variant "Err" [plain_field y2] 1 []] ->
   rec x1 x2 st = Ok (true, st1) -> rec y1 y2 st1 = Ok (true, st2) -> teq_def rec g1 g2 tx ty st = Ok (true, st2).
 Proof.
-  intros H1 H2 Hr1 Hr2. unfold teq_def. rewrite H1, H2. cbn [List.length Nat.eqb negb all2 v_name v_fields].
-  rewrite !String.eqb_refl. unfold fields_equal_with, compare_fields_with.
+  intros H1 H2 Hr1 Hr2. unfold teq_def. rewrite H1, H2. cbn [List.length Nat.eqb negb all2 v_name v_fields v_index].
+  rewrite !String.eqb_refl, !N.eqb_refl. cbn [andb]. unfold fields_equal_with, compare_fields_with.
   cbn [List.length Nat.eqb negb all2 plain_field f_name f_type_name f_ty opt_str_eqb]. rewrite Hr1.
   cbn [bind fst snd]. rewrite Hr2. reflexivity.
 Qed.
@@ -973,15 +973,15 @@ Section Sim.
                 Inv st -> vgood r st -> fuel_ok (S (List.length r)) st ->
                 good_res st
                   (all2 (fun x y st1 =>
-                           if String.eqb (v_name x) (v_name y)
+                           if String.eqb (v_name x) (v_name y) && N.eqb (v_index x) (v_index y)
                            then fields_equal_with (fun x0 y0 st2 => teq r (S (List.length r)) x0 G1 y0 G2 st2) G1 G2
                                                   (v_fields x) (v_fields y) st1
                            else Ok (false, st1)) vl1' vl2' st)).
       { induction vs' as [|v vs' IH]; intros vl1' vl2' st Hin H1 H2 HI Hv Hfu.
         - inversion H1; subst. inversion H2; subst. cbn [all2]. apply good_res_refl; assumption.
-        - inversion H1 as [|? x ? vl1'' (Hn1 & _ & Hfx) Hr1']; subst.
-          inversion H2 as [|? y ? vl2'' (Hn2 & _ & Hfy) Hr2']; subst. cbn [all2].
-          rewrite Hn1, Hn2, String.eqb_refl.
+        - inversion H1 as [|? x ? vl1'' (Hn1 & Hi1 & Hfx) Hr1']; subst.
+          inversion H2 as [|? y ? vl2'' (Hn2 & Hi2 & Hfy) Hr2']; subst. cbn [all2].
+          rewrite Hn1, Hn2, Hi1, Hi2, String.eqb_refl, N.eqb_refl. cbn [andb].
           destruct (sim_fields (S (List.length r)) (snd v) (v_fields x) (v_fields y) st) as (st' & Hres & A & B & C); auto.
           { intros sf Hsf. unfold def_sfields. rewrite Eb. apply in_flat_map. exists v.
             split; [apply Hin; left; reflexivity|exact Hsf]. }
